@@ -6,9 +6,10 @@
      C04_sound    : forall bs r rf, dns_parse bs 0 = Ok r -> ref_decode bs = Some rf ->
                                     fields_agree r (rf_rec rf)
      C04_complete : forall bs, ref_strict bs = true -> exists r, dns_parse bs 0 = Ok r
-   Both are decided on every run by the oracle (FAIL ref-mismatch / ref-accepts) on the real
-   library; the theorems below are the parts proved for ALL inputs so far. *)
-From CAres.Wire Require Import Cursor Name Record Parse Escape Escape_proofs RefDecode RefDecode_proofs Name_ref Parse_ref.
+   BOTH are proved below for ALL inputs (model of the tree with the C04 fixes applied, which is what
+   /repo now contains; octets are < 256).  They are additionally decided on every run by the oracle
+   (FAIL ref-mismatch / ref-accepts) on the real library. *)
+From CAres.Wire Require Import Cursor Name Record Parse Escape Escape_proofs RefDecode RefDecode_proofs Name_ref Parse_ref Parse_ref5 Parse_cmp3.
 From CAres.Gen Require Import Consts.
 Local Open Scope Z_scope.
 
@@ -26,11 +27,41 @@ Theorem C04_name_agreement : forall fuel c,
 Proof. exact name_parse_ref. Qed.
 Print Assumptions C04_name_agreement.
 
+(* C04_sound, ALL inputs, every field: whenever ares_dns_parse() (flags 0) accepts a message and the
+   RFC reference decoder can follow it, the record returned says exactly what the reference decoder
+   extracts from the same octets - id, flag bits, opcode, the 12-bit RCODE assembled from the header
+   nibble and the OPT RR (reported as SERVFAIL when the library has no enumerator for it), the
+   question, and for every RR of the three sections its owner name, type, class, TTL and every RDATA
+   field of every supported type (A NS CNAME SOA PTR HINFO MX TXT SIG AAAA SRV NAPTR OPT TLSA SVCB
+   HTTPS URI CAA) and, for any other type, the opaque RDATA with the type number; compressed names
+   are followed to what RFC 1035 4.1.4 says they mean.  [fields_agree] compares modulo NULL = empty
+   and STR = NAME text (RefDecode.norm_fval).  The only messages the reference decoder does not
+   follow although the parser accepts them carry more than one OPT RR. *)
+Theorem C04_sound : forall bs r rf,
+  bytes_ok bs ->
+  dns_parse bs 0 = Ok r -> ref_decode bs = Some rf -> fields_agree r (rf_rec rf).
+Proof. exact sound_fixed. Qed.
+Print Assumptions C04_sound.
+
+(* C04_complete, ALL inputs: every message the RFC reference decoder finds well formed within the
+   supported subset is accepted by ares_dns_parse() (flags 0).  [ref_strict] (RefDecode.v): the
+   lenient decoder can follow the message and every RDATA is consumed exactly; one question; opcode,
+   question class and RR classes ones the library knows (OPT exempt); no RR of the QTYPE-only type
+   255; the <character-string>s of HINFO / NAPTR / CAA and the URI target printable ASCII.  Any
+   type, any compression layout RFC 1035 4.1.4 allows, any option codes (repeated ones too), names
+   of any length, any RCODE.  With C04_sound: on the supported subset the parser returns exactly
+   the record the reference decoder describes. *)
+Theorem C04_complete : forall bs,
+  bytes_ok bs -> ref_strict bs = true -> exists r, dns_parse bs 0 = Ok r.
+Proof. exact complete_fixed. Qed.
+Print Assumptions C04_complete.
+
 (* C04_sound restricted to HEADER AND QUESTION, for all inputs (both tree variants): whenever the
    parser accepts a message and the reference decoder can follow it, the id, the flag bits, the
    opcode and the question (decompressed name, type, class) the parser reports are exactly what
    the reference decoder extracts.
-   _partial: RR sections and the RCODE (assembled from OPT) are not covered by this theorem *)
+   _partial: RR sections and the RCODE (assembled from OPT) are not covered by this theorem (for the
+   fixed tree they are covered by C04_sound; for the pinned tree they are refuted below) *)
 Theorem C04_sound_header_question_partial : forall variant bs r rf,
   bytes_ok bs -> Z.of_nat (length bs) < 2 ^ 64 ->
   dns_parse_v variant bs 0 = Ok r -> ref_decode bs = Some rf ->
